@@ -1,0 +1,60 @@
+//go:build verif
+
+// Contracts for the verif framework (/verif). Comment-only: this file
+// declares nothing and is compiled only with -tags=verif.
+
+package main
+
+// The walk function of txtar-c (C14, C15): which files are archived and with what data.
+// Abstract view of quoting (txtar's own contracts, C14, say what these are).
+//@ pure func needsQuoteC(c int) bool
+//@ pure func quoteC(c int) int
+//@ pure func storedOK(d int, c int) bool = needsQuoteC(c) ? d == quoteC(c) : d == c
+//@ ghost var gArgId Int
+//@ ghost var gNQ Bool
+//@ ghost var gQErr Int
+//@ ghost var gName Str
+//@ ghost var gRegular Bool
+//@ ghost var gUTF8 Bool
+//@ extern github.com/rogpeppe/go-internal/txtar.NeedsQuote(data) (r)
+//@   pure
+//@   ensures r == needsQuoteC(sid(data))
+//@ extern github.com/rogpeppe/go-internal/txtar.Quote(data) (r, err)
+//@   modifies new bytes
+//@   ensures err == nil ==> sid(r) == quoteC(sid(data)) && fresh(r)
+//@ extern (os.FileInfo).Name(fi) (r)
+//@   pure
+//@ extern (os.FileInfo).Mode(fi) (r)
+//@   pure
+//@ extern (io/fs.FileMode).IsRegular(m) (r)
+//@   pure
+//@ extern unicode/utf8.Valid(p) (r)
+//@   pure
+//@ extern log.Printf(format, v)
+//@   pure
+//@ extern os.ReadFile(name) (data, err)
+//@   modifies new bytes
+//@   ensures data == nil || fresh(data)
+
+// A file is appended at most once per visit, and only if it is a regular file that is not
+// hidden (unless -a), holds valid UTF-8 and either needs no quoting or -quote was given and
+// quoting succeeded; what is stored is the data NeedsQuote was asked about, quoted iff it
+// needs quoting; a quoted file is announced by a line appended to the comment; an error of
+// the walk or of reading the file is returned, never swallowed.
+//@ func main$1
+//@   requires a != nil
+//@   names (r)
+//@   modifies F_S_txtar_Archive_Files, F_S_txtar_Archive_Comment, H_S_txtar_File, H_Str, bytes, gArgId
+//@   at call (os.FileInfo).Name#1: bind gName = r
+//@   at call (fs.FileMode).IsRegular#1: bind gRegular = r
+//@   at call utf8.Valid#1: bind gUTF8 = r
+//@   at call os.ReadFile#1: requires name == path
+//@   at call txtar.NeedsQuote#1: ghost gArgId = sid(data)
+//@   at call txtar.NeedsQuote#1: bind gNQ = r
+//@   at call txtar.Quote#1: bind gQErr = err
+//@   at call txtar.Quote#1: requires C_Bool[quoteFlag] && sid(data) == gArgId
+//@   ensures err != nil ==> r == err && sameSlice(a.Files, old(a.Files))
+//@   ensures len(a.Files) == old(len(a.Files)) || len(a.Files) == old(len(a.Files)) + 1
+//@   ensures len(a.Files) == old(len(a.Files)) + 1 ==> r == nil && gRegular && gUTF8 && (C_Bool[allFlag] || !(len(gName) >= 1 && at(gName, lo(gName)) == '.'))
+//@   ensures len(a.Files) == old(len(a.Files)) + 1 ==> storedOK(sid(at(a.Files, hi(a.Files)-1).Data), gArgId) && (gNQ ==> C_Bool[quoteFlag] && gQErr == nil && len(a.Comment) > old(len(a.Comment)))
+//@   ensures len(a.Files) == old(len(a.Files)) ==> sameSlice(a.Comment, old(a.Comment))
